@@ -328,7 +328,25 @@ func runC17(c *vh.Case) {
 		}
 		if r.Chance(1, 2) {
 			mutations++
-			switch x := r.Intn(3); {
+			switch x := r.Intn(4); {
+			case x == 3 && len(pool) > 0 && len(registered) > 0:
+				// as many items removed as added, with no list call in between (the set keeps its size)
+				k := r.Range(1, min(2, len(pool)))
+				for ; k > 0 && len(registered) > 0; k-- {
+					var have []string
+					for _, n := range names {
+						if registered[idOf(n)] {
+							have = append(have, n)
+						}
+					}
+					v := have[r.Intn(len(have))]
+					remove(v)
+					removedEver[idOf(v)] = true
+					nw := pool[0]
+					pool = append(pool[1:], v)
+					add(nw)
+					spec.Steps = append(spec.Steps, "swap "+v+"->"+nw)
+				}
 			case x == 0 && len(pool) > 0:
 				add(pool[0])
 				spec.Steps = append(spec.Steps, "add "+pool[0])
